@@ -89,6 +89,14 @@ CLAIMED = {
             "Trusted: TLC, encoder, projection. One open known finding (with-unit float types, D12) is matched by "
             "its exact signature only.",
             "DESIGN.md 3.7, 5/C10"),
+    "C16": ("TLA+ TdmsPath: encoder and the decoder automaton (character-pair scanner) model-checked for all 7311 paths "
+            "with names <=3 over {quote, slash, space, letter}; the same set replayed through ObjectPath and end to end "
+            "through TdmsWriter/TdmsFile; random unicode names validated by Trace_Path.tla",
+            "Exhaustive model checking of Decode(Encode(g,c)) = <<g,c>> (hence injectivity) plus spec->code conformance "
+            "of every path (encode, decode, kind flags) and end-to-end name/path/group_name/lookup/no-aliasing in "
+            "batches of distinct names per file; code->spec trace validation for random unicode names.",
+            "Trusted: TLC; the letter symbol stands for every character other than quote and slash.",
+            "DESIGN.md 3.9, 5/C16"),
     "C15": ("TLA+ TdmsSegments: byte order is an attribute of the encoding only; TLC enumerates per-segment byte-order "
             "assignments, each file replayed in 4 byte-order variants against the one specification view",
             "Model checking + spec->code conformance: all 2^k per-segment byte-order assignments (k<=2) over "
